@@ -170,7 +170,7 @@ func (g *gen) randHdr(valid bool) *store.TxHeader {
 	rng := g.r.Rng
 	ids := []uint64{1, 2, 3, 255, 256, 1 << 32, math.MaxUint64, 2 + uint64(rng.Intn(100000))}
 	h := &store.TxHeader{ID: ids[rng.Intn(len(ids))], Version: rng.Intn(2)}
-	tss := []int64{0, 1, -1, math.MaxInt64, math.MinInt64, rng.Int63(), time.Now().Unix()}
+	tss := []int64{0, 1, -1, math.MaxInt64, math.MinInt64, rng.Int63(), 1700000000}
 	h.Ts = tss[rng.Intn(len(tss))]
 	switch rng.Intn(3) {
 	case 0:
@@ -323,13 +323,16 @@ func (g *gen) genExport(ntx int) error {
 						md.ExpiresAt(time.Unix(4000000000+int64(rng.Intn(1000)), 0))
 					}
 				}
-				klen := []int{1, 2, 3, 17, 255, 256, 1024}[rng.Intn(7)]
+				klen := []int{1, 2, 3, 17, 40, 255}[rng.Intn(6)]
+				if t == 2 && e == 0 {
+					klen = primary.MaxKeyLen()
+				}
 				key := vk.RandBytes(rng, klen)
 				key[0] = byte(t)
 				if klen > 1 {
 					key[1] = byte(e)
 				}
-				vlen := []int{0, 0, 1, 2, 33, 300}[rng.Intn(6)]
+				vlen := []int{0, 0, 1, 2, 33, 150}[rng.Intn(6)]
 				if err := tx.Set(key, md, vk.RandBytes(rng, vlen)); err != nil {
 					return err
 				}
